@@ -101,92 +101,7 @@ func runC16(r *Run) {
 	}
 	r.Expect("C16.1", 20, "store methods")
 
-	// ---------- C16.2 ActionStore
-	type actRule struct {
-		fn       string
-		sigField string // existing-action test
-		keyChk   bool
-		errType  string
-	}
-	for _, ar := range []actRule{
-		{"tmmemstore.ActionStore.SaveProposedHeaderAction", "", false, "tmstore.DoubleActionError"},
-		{"tmmemstore.ActionStore.SavePrevoteAction", "PrevoteSignature", true, "tmstore.DoubleActionError"},
-		{"tmmemstore.ActionStore.SavePrecommitAction", "PrecommitSignature", true, "tmstore.DoubleActionError"},
-	} {
-		fn := w.Fn(ar.fn)
-		if fn == nil {
-			r.Fail("C16.2", ar.fn, "", "method not found")
-			continue
-		}
-		a := w.A(fn)
-		ups := mapUpdates(a, "p0.ras")
-		if len(ups) == 0 {
-			r.Fail("C16.2", ar.fn+"#store", w.Pos(fn.Pos()), "no write to the action map found")
-			continue
-		}
-		miss, _ := a.IfEdges("p0.ras[$k]#1", false, nil)
-		var free []Edge
-		if ar.sigField == "" {
-			free, _ = a.IfEdges("($x.ProposedHeader.Header.Height == 0)", true, nil)
-		} else {
-			free, _ = a.IfEdges("($x."+ar.sigField+` == "")`, true, nil)
-		}
-		for i, up := range ups {
-			con := fmt.Sprintf("%s#store%d", ar.fn, i+1)
-			pos := w.InstrPos(up)
-			r.Check(len(free) > 0 && a.EveryPathTakes(up, miss, free), "C16.2", con+"(no-double)", pos,
-				"the map write must be reachable only when the round has no entry or the existing entry has no such action")
-			if ar.keyChk {
-				nokey, _ := a.IfEdges("($x.PubKey == nil)", true, nil)
-				eq, _ := a.IfEdges("@@gcrypto.PubKey.Equal($...)", true, nil)
-				r.Check(len(eq) > 0 && a.EveryPathTakes(up, miss, nokey, eq), "C16.2", con+"(same-key)", pos,
-					"the map write must be reachable only when no key is recorded or the recorded key equals the offered one")
-			}
-			// same key for lookup and update, derived from the argument's height/round
-			key := a.sh.Of(up.Key).String()
-			okKey := strings.Contains(key, "H:") && strings.Contains(key, "R:") && (strings.Contains(key, ".Height") && strings.Contains(key, ".Round"))
-			lookupSame := false
-			a.Instrs(func(in ssa.Instruction) {
-				if l, ok := in.(*ssa.Lookup); ok && a.sh.Of(l.X).String() == "p0.ras" && a.sh.Of(l.Index).String() == key {
-					lookupSame = true
-				}
-			})
-			r.Check(okKey && lookupSame, "C16.2", con+"(key)", pos, "entry is looked up and stored under the same (Height, Round) of the offered action: key "+key)
-		}
-		// the recorded entry carries the offered action in the fields of its own kind
-		got := map[string]string{}
-		a.Instrs(func(in ssa.Instruction) {
-			if st, ok := in.(*ssa.Store); ok {
-				if fa, ok := st.Addr.(*ssa.FieldAddr); ok {
-					if al, ok := fa.X.(*ssa.Alloc); ok && TypeName(al.Type()) == "tmstore.RoundActions" {
-						got[fieldName(fa.X.Type(), fa.Field)] = a.sh.Of(st.Val).String()
-					}
-				}
-			}
-		})
-		var want map[string]string
-		switch ar.sigField {
-		case "":
-			want = map[string]string{"Height": "p2.Header.Height", "Round": "p2.Round", "ProposedHeader": "p2"}
-		case "PrevoteSignature":
-			want = map[string]string{"Height": "p3.Height", "Round": "p3.Round", "PrevoteTarget": "p3.BlockHash", "PrevoteSignature": "p4", "PubKey": "p2"}
-		case "PrecommitSignature":
-			want = map[string]string{"Height": "p3.Height", "Round": "p3.Round", "PrecommitTarget": "p3.BlockHash", "PrecommitSignature": "p4", "PubKey": "p2"}
-		}
-		okW := len(got) == len(want)
-		for k, v := range want {
-			if got[k] != v {
-				okW = false
-			}
-		}
-		r.Check(okW, "C16.2", ar.fn+"(record)", w.Pos(fn.Pos()), fmt.Sprintf("fields written to the round's record: %v (want %v)", got, want))
-		// refusal error types
-		rets := returnShapes(a, fn.Signature.Results().Len()-1)
-		r.Check(containsPrefix(rets, "lit:"+ar.errType), "C16.2", ar.fn+"(refusal)", w.Pos(fn.Pos()), "returns "+ar.errType+" on refusal; returns: "+strings.Join(rets, " | "))
-		if ar.keyChk {
-			r.Check(containsPrefix(rets, "lit:tmstore.PubKeyChangedError"), "C16.2", ar.fn+"(key-refusal)", w.Pos(fn.Pos()), "returns PubKeyChangedError on key change")
-		}
-	}
+	actionStoreRules(r, "C16.2")
 
 	// ---------- C16.3 FinalizationStore
 	if fn := w.Fn("tmmemstore.FinalizationStore.SaveFinalization"); fn == nil {
@@ -430,4 +345,115 @@ func containsPrefix(xs []string, p string) bool {
 		}
 	}
 	return false
+}
+
+// actionStoreRules: the in-memory action store's refusal and record-keeping
+// contract (shared by C16.2 and C02.8).
+func actionStoreRules(r *Run, rule string) {
+	w := r.W
+	// ---------- C16.2 ActionStore
+	type actRule struct {
+		fn       string
+		sigField string // existing-action test
+		keyChk   bool
+		errType  string
+	}
+	for _, ar := range []actRule{
+		{"tmmemstore.ActionStore.SaveProposedHeaderAction", "", false, "tmstore.DoubleActionError"},
+		{"tmmemstore.ActionStore.SavePrevoteAction", "PrevoteSignature", true, "tmstore.DoubleActionError"},
+		{"tmmemstore.ActionStore.SavePrecommitAction", "PrecommitSignature", true, "tmstore.DoubleActionError"},
+	} {
+		fn := w.Fn(ar.fn)
+		if fn == nil {
+			r.Fail(rule, ar.fn, "", "method not found")
+			continue
+		}
+		a := w.A(fn)
+		ups := mapUpdates(a, "p0.ras")
+		if len(ups) == 0 {
+			r.Fail(rule, ar.fn+"#store", w.Pos(fn.Pos()), "no write to the action map found")
+			continue
+		}
+		miss, _ := a.IfEdges("p0.ras[$k]#1", false, nil)
+		var free []Edge
+		if ar.sigField == "" {
+			free, _ = a.IfEdges("($x.ProposedHeader.Header.Height == 0)", true, nil)
+		} else {
+			free, _ = a.IfEdges("($x."+ar.sigField+` == "")`, true, nil)
+		}
+		for i, up := range ups {
+			con := fmt.Sprintf("%s#store%d", ar.fn, i+1)
+			pos := w.InstrPos(up)
+			r.Check(len(free) > 0 && a.EveryPathTakes(up, miss, free), rule, con+"(no-double)", pos,
+				"the map write must be reachable only when the round has no entry or the existing entry has no such action")
+			if ar.keyChk {
+				nokey, _ := a.IfEdges("($x.PubKey == nil)", true, nil)
+				eq, _ := a.IfEdges("@@gcrypto.PubKey.Equal($...)", true, nil)
+				r.Check(len(eq) > 0 && a.EveryPathTakes(up, miss, nokey, eq), rule, con+"(same-key)", pos,
+					"the map write must be reachable only when no key is recorded or the recorded key equals the offered one")
+			}
+			// same key for lookup and update, derived from the argument's height/round
+			key := a.sh.Of(up.Key).String()
+			okKey := strings.Contains(key, "H:") && strings.Contains(key, "R:") && (strings.Contains(key, ".Height") && strings.Contains(key, ".Round"))
+			lookupSame := false
+			a.Instrs(func(in ssa.Instruction) {
+				if l, ok := in.(*ssa.Lookup); ok && a.sh.Of(l.X).String() == "p0.ras" && a.sh.Of(l.Index).String() == key {
+					lookupSame = true
+				}
+			})
+			r.Check(okKey && lookupSame, rule, con+"(key)", pos, "entry is looked up and stored under the same (Height, Round) of the offered action: key "+key)
+		}
+		// the recorded entry carries the offered action in the fields of its own kind
+		got := map[string]string{}
+		a.Instrs(func(in ssa.Instruction) {
+			if st, ok := in.(*ssa.Store); ok {
+				if fa, ok := st.Addr.(*ssa.FieldAddr); ok {
+					if al, ok := fa.X.(*ssa.Alloc); ok && TypeName(al.Type()) == "tmstore.RoundActions" {
+						got[fieldName(fa.X.Type(), fa.Field)] = a.sh.Of(st.Val).String()
+					}
+				}
+			}
+		})
+		var want map[string]string
+		switch ar.sigField {
+		case "":
+			want = map[string]string{"Height": "p2.Header.Height", "Round": "p2.Round", "ProposedHeader": "p2"}
+		case "PrevoteSignature":
+			want = map[string]string{"Height": "p3.Height", "Round": "p3.Round", "PrevoteTarget": "p3.BlockHash", "PrevoteSignature": "p4", "PubKey": "p2"}
+		case "PrecommitSignature":
+			want = map[string]string{"Height": "p3.Height", "Round": "p3.Round", "PrecommitTarget": "p3.BlockHash", "PrecommitSignature": "p4", "PubKey": "p2"}
+		}
+		okW := len(got) == len(want)
+		for k, v := range want {
+			if got[k] != v {
+				okW = false
+			}
+		}
+		r.Check(okW, rule, ar.fn+"(record)", w.Pos(fn.Pos()), fmt.Sprintf("fields written to the round's record: %v (want %v)", got, want))
+		// the record written back is the looked-up record of that round, updated in place:
+		// other actions already recorded for the round must survive (a vote recorded before a
+		// late proposal, a prevote when the precommit is saved, ...)
+		for i, up := range ups {
+			preserved := false
+			if ld, ok := up.Value.(*ssa.UnOp); ok {
+				if al, ok := ld.X.(*ssa.Alloc); ok {
+					ai := a.sh.allocInfo(al)
+					for _, wv := range ai.whole {
+						if a.sh.Of(wv).String() == "p0.ras["+a.sh.Of(up.Key).String()+"]#0" {
+							preserved = true
+						}
+					}
+				}
+			}
+			r.Check(preserved, rule, fmt.Sprintf("%s#store%d(record-preserved)", ar.fn, i+1), w.InstrPos(up),
+				"the value stored must be the round's existing record (the lookup result) with this action's fields assigned, so that actions already recorded for the round are kept")
+		}
+		// refusal error types
+		rets := returnShapes(a, fn.Signature.Results().Len()-1)
+		r.Check(containsPrefix(rets, "lit:"+ar.errType), rule, ar.fn+"(refusal)", w.Pos(fn.Pos()), "returns "+ar.errType+" on refusal; returns: "+strings.Join(rets, " | "))
+		if ar.keyChk {
+			r.Check(containsPrefix(rets, "lit:tmstore.PubKeyChangedError"), rule, ar.fn+"(key-refusal)", w.Pos(fn.Pos()), "returns PubKeyChangedError on key change")
+		}
+	}
+
 }
